@@ -285,6 +285,23 @@ Tainted(e, g, c) ==
       [] e.t = "call"   -> TaintedArgs(g, e.args, c) \/ Bad(Eval(e, g, c))
       [] OTHER          -> FALSE
 
+\* prefixes used by the name tests of an expression (CompileWithNS must know them all)
+RECURSIVE PrefixesOfSteps(_), PrefixesOf(_), PrefixesOfSeq(_)
+PrefixesOfSeq(es) == IF es = <<>> THEN {} ELSE PrefixesOf(Head(es)) \cup PrefixesOfSeq(Tail(es))
+PrefixesOfSteps(steps) ==
+    IF steps = <<>> THEN {}
+    ELSE (IF Head(steps).nt.k = "name" /\ Head(steps).nt.px # "" THEN {Head(steps).nt.px} ELSE {})
+         \cup PrefixesOfSeq(Head(steps).preds) \cup PrefixesOfSteps(Tail(steps))
+PrefixesOf(e) ==
+    CASE e.t = "path"   -> PrefixesOfSteps(e.steps)
+      [] e.t = "filter" -> PrefixesOf(e.e) \cup PrefixesOfSeq(e.preds) \cup PrefixesOfSteps(e.steps)
+      [] e.t = "union"  -> PrefixesOf(e.l) \cup PrefixesOf(e.r)
+      [] e.t = "seqstep" -> PrefixesOf(e.base) \cup PrefixesOfSteps(e.alts)
+      [] e.t = "bin"    -> PrefixesOf(e.l) \cup PrefixesOf(e.r)
+      [] e.t = "neg"    -> PrefixesOf(e.e)
+      [] e.t = "call"   -> PrefixesOfSeq(e.args)
+      [] OTHER -> {}
+
 \* node-set result as a set / in document order
 EvalSet(e, g, n) == Eval(e, g, Ctx(n)).v
 EvalDocOrder(e, g, n) == Asc(g.d, EvalSet(e, g, n))
